@@ -148,6 +148,14 @@ class _Canon(ast.NodeTransformer):
 
     def visit_Assign(self, node):
         self.generic_visit(node)
+        # N8: `a, b = x, y`  ->  `a = x; b = y` when no earlier target occurs in a later value (same evaluation order, same result)
+        if len(node.targets) == 1 and isinstance(node.targets[0], (ast.Tuple, ast.List)) and isinstance(node.value, (ast.Tuple, ast.List)) \
+                and len(node.targets[0].elts) == len(node.value.elts) and all(isinstance(t, ast.Name) for t in node.targets[0].elts) \
+                and not any(isinstance(v, ast.Starred) for v in node.value.elts):
+            ts, vs = node.targets[0].elts, node.value.elts
+            safe = all(not any(isinstance(x, ast.Name) and x.id == ts[i].id for x in ast.walk(vs[j])) for i in range(len(ts)) for j in range(i + 1, len(vs)))
+            if safe:
+                return [self.visit_Assign(_loc(ast.Assign(targets=[t], value=v), node)) for t, v in zip(ts, vs)]
         if len(node.targets) == 1 and isinstance(node.value, ast.BinOp) and isinstance(node.targets[0], (ast.Name, ast.Attribute, ast.Subscript)) \
                 and _norm(node.value.left) == _norm(node.targets[0]):
             t = copy.deepcopy(node.targets[0])
@@ -247,6 +255,22 @@ def _tail_returns_only(body) -> bool:
             rs |= tail(last.body)
         return rs
     return {id(r) for r in _returns(body)} <= tail(body)
+
+
+def _nest_guard_returns(stmts):
+    """`if c: ...; return X` followed by more statements  ->  `if c: ...; return X  else: <the rest>` (in place, recursively), so
+    that a callee written with guard clauses has its returns in tail position."""
+    for i, s in enumerate(stmts):
+        if isinstance(s, ast.If) and not s.orelse and s.body and isinstance(s.body[-1], ast.Return) and i + 1 < len(stmts):
+            s.orelse = stmts[i + 1:]
+            del stmts[i + 1:]
+            _nest_guard_returns(s.orelse)
+            break
+    for s in stmts:
+        if isinstance(s, ast.If):
+            _nest_guard_returns(s.body)
+            if s.orelse:
+                _nest_guard_returns(s.orelse)
 
 
 def _replace_tail_returns(stmts, make):
@@ -420,9 +444,10 @@ class Inliner:
         if body is None:
             return None
         rets = _returns(body)
+        if mode != "return" and rets and not _tail_returns_only(body):
+            _nest_guard_returns(body)
         if mode == "return":
-            if not _tail_returns_only(body) and rets:
-                return None
+            # every `return` of the callee simply becomes a return of the caller, wherever it stands
             if not rets or not isinstance(body[-1], (ast.Return, ast.If, ast.Try, ast.With)):
                 body = body + [_loc(ast.Return(value=ast.Constant(value=None)), s)]
         elif mode == "stmt":
